@@ -8,9 +8,7 @@ from vlib import hexs
 
 TYPES = [('NULL', 10), ('PRIVATE', 65399), ('TXT', 16), ('SRV', 33), ('MX', 15), ('CNAME', 5), ('A', 1)]
 CODECS = 'TSUVR'
-WIRE = vlib.tu_harness(['hmain.c', 'h_c09.c', 'wire_net.c', 'wire_srv.c', 'wire_cli.c'], 'server',
-                       ['sendto', 'recvfrom', 'recv', 'recvmsg', 'time', 'write_tun', 'read_tun', 'system', 'rand', 'sleep'])
-WIRE['repo'] = vlib.COMMON_SRCS + ['user.c', 'fw_query.c', 'util.c']
+from wirelib import WIRE
 
 QNAME_SHORT = b'paaaq.t.example.com'
 QNAME_LONG = (b'0abcd' + b'x' * 57 + b'.' + b'y' * 57 + b'.' + b'z' * 57 + b'.' + b'w' * 50 + b'.t.example.com')
@@ -143,7 +141,7 @@ def model_subset(meta_caps, seed, tier):
 
 
 def check(rep):
-    ctx = vlib.prepare(rep, harnesses={'wire': WIRE}, sanitize=(rep.tier == 'thorough'))
+    ctx = vlib.prepare(rep, harnesses={'wire': WIRE}, sanitize=(rep.tier == 'thorough'), model='WIRE')
     cases, meta, stats = gen_cases(rep.seed, rep.tier)
     rep.cov['rule'] = ('corpus first; implementation sweep: 7 record types x 5 downstream codecs x payload lengths 2..4096 '
                        '(thorough: every length x 4 contents x short and 248-char question names; quick: every length to 300 then step 7), '
@@ -219,7 +217,7 @@ def check(rep):
 
 def replay(rp):
     rep = vlib.Report('C09', 'quick', rp.get('seed', 1))
-    ctx = vlib.prepare(rep, harnesses={'wire': WIRE}, sanitize=False, prove_it=False)
+    ctx = vlib.prepare(rep, harnesses={'wire': WIRE}, sanitize=False, prove_it=False, model='WIRE')
     case = rp.get('case')
     if not case:
         print('replay names a broken obligation, not an input:', rp.get('broken'))
